@@ -132,7 +132,7 @@ class DatagramEndpoint:
     async def sendto(self, data: bytes | bytearray | memoryview, address: tuple[Any, ...] | None = None, /) -> None:
         if isinstance(data, memoryview) and (data.itemsize != 1 or data.ndim != 1):
             # asyncio transports count the buffered data by items, then by bytes
-            data = data.cast("B")
+            data = data.cast("B") if data.nbytes else b""  # (an empty view with several dimensions cannot be cast)
         self.__transport.sendto(data, address)
         await self.__protocol._drain_helper()
 
